@@ -26,6 +26,11 @@ StepEv(e) ==
     (IF e.unmapped THEN         \* the mapping names no controller: the target stays untouched
         LET g == e.outcome = "ok" /\ e.rle = <<<<e.initial, 32769>>>> /\ e.others_unchanged IN
         Check(g, "unmapped-link-touched-target", <<e.initial, 32769>>, <<e.outcome, e.rle>>) /\ ok' = (ok /\ g)
+     ELSE IF e.wide THEN         \* a window wider than a compact target's span: a delivery may be refused, never stored out of range
+        LET g3 == InRangeRle(e.rle, e.lo, e.hi)   g5 == e.others_unchanged IN
+        /\ Check(g3, "delivered-out-of-range", <<e.lo, e.hi>>, e.rle)
+        /\ Check(g5, "other-controllers-changed", "unchanged", "changed")
+        /\ ok' = (ok /\ g3 /\ g5)
      ELSE
         LET g1 == e.outcome = "ok"
             g2 == Total(e.rle) = 32769
